@@ -2,10 +2,10 @@ package vconsensus
 
 import (
 	"fmt"
+	"runtime/debug"
 	"sync/atomic"
 	"testing"
 
-	"github.com/NethermindEth/juno/consensus/types"
 	"github.com/NethermindEth/juno/verifh/lib"
 )
 
@@ -182,17 +182,40 @@ func runCase(r *lib.Run, idx int, maxRound, maxSweeps *atomic.Int64) {
 				}
 			}
 		}
+		// Second exemption: Juno evaluates line 49 (and 55) only for the current
+		// round and the round of the message just received. A validator whose
+		// buffer already held the deciding proposal + precommit quorum of round rc
+		// before it entered the height, and which then never visits round rc
+		// (f+1 skip past it), never evaluates line 49 for rc although the paper's
+		// rule is enabled over its message log. It recovers only through the sync
+		// path (not driven here). Counted, not judged.
+		unevaluated := 0
+		for _, i := range c.correct {
+			nd := s.nodes[i]
+			if v, ok := s.decided[nd.h]; ok && !nd.done {
+				rc := s.decRound[nd.h]
+				if rl := s.hl(nd, nd.h).rl(rc); rl != nil && rl.commitEnabledWhileBuffered && len(rl.props) > 0 && rl.props[0].val == v && nd.round != rc {
+					unevaluated++
+				}
+			}
+		}
 		if wedged > 0 {
 			r.Count("progress_not_applicable(validator holds losing first proposal of decision round)", 1)
 			r.Count("validators_wedged_on_losing_first_proposal", wedged)
+		} else if unevaluated > 0 {
+			r.Count("progress_not_applicable(decision enabled from buffered messages in a round never visited)", 1)
 		} else {
 			var where []string
+			var stuck *node
 			for _, i := range c.correct {
 				nd := s.nodes[i]
+				if !nd.done && stuck == nil {
+					stuck = nd
+				}
 				where = append(where, fmt.Sprintf("v%d:h%d/r%d/done=%v/timeouts=%d", i, nd.h, nd.round, nd.done, len(nd.timeouts)))
 			}
 			s.violation("progress:no-decision-within-bound-after-synchronous-suffix",
-				fmt.Sprintf("after %d sweeps of the synchronous suffix (all messages gossiped, byzantine silent) not every correct validator decided: %v", sweeps, where), nil, msg{kind: kStart})
+				fmt.Sprintf("after %d sweeps of the synchronous suffix (all messages gossiped, byzantine silent) not every correct validator decided: %v; decided so far %v in rounds %v", sweeps, where, s.decided, s.decRound), stuck, msg{kind: kStart})
 			r.Count("violating_schedules_"+tplNames[kind], 1)
 		}
 	}
@@ -207,13 +230,13 @@ func runCase(r *lib.Run, idx int, maxRound, maxSweeps *atomic.Int64) {
 }
 
 func TestC12(t *testing.T) {
+	debug.SetGCPercent(400) // many small short-lived allocations per schedule; heap stays tiny
 	r := lib.Start("C12", "exploration")
 	n := r.N(200000, 6000000)
 	var maxRound, maxSweeps atomic.Int64
 	r.Cases(n, 0, func(idx int) { runCase(r, idx, &maxRound, &maxSweeps) })
 	r.Count("max_round_reached", int(maxRound.Load()))
 	r.Count("max_suffix_sweeps_needed", int(maxSweeps.Load()))
-	_ = types.Round(0)
 	r.Assume("messages are authenticated: a byzantine validator cannot send under a correct validator's address (signatures are checked below the state machine)")
 	r.Assume("sampling plus guided adversaries, not the exhaustive n=4 enumeration of the property's quantifier")
 	r.Assume("ProcessSync / TriggerSync (catch-up through the sync protocol) and WAL replay are not driven")
@@ -224,5 +247,5 @@ func TestC12(t *testing.T) {
 		"different content to different peers, quorum-completing votes for a single target) or by one of three attack templates followed by the adversary; then a "+
 		"synchronous suffix. Online oracles over every action returned by Process*: agreement, validity (proposer, Valid, delivered), no equivocation, lock rule "+
 		"against the messages the harness itself delivered, thresholds 3P>=2N / 3P>=N over distinct delivered senders, bounded progress (<= 800 sweeps) after the "+
-		"suffix unless a validator was handed the losing proposal of an equivocating proposer for the decision round. distinct = distinct schedule hashes", 1000)
+		"suffix, except for validators that hold the losing first proposal of an equivocating proposer for the decision round or whose decision was enabled purely from messages buffered before the height started in a round they never visit. distinct = distinct schedule hashes", 1000)
 }
